@@ -5,6 +5,7 @@ import (
 	"go/ast"
 	"go/token"
 	"go/types"
+	"sort"
 	"strings"
 
 	"golang.org/x/tools/go/packages"
@@ -155,71 +156,124 @@ func isFreshAlloc(v ssa.Value) bool {
 // case types the returned expression must be the switch variable itself ("same")
 // or something else ("fresh": a composite literal / recursive copy).
 func checkCopyShape(p *Program, pkg *packages.Package, fn *FuncDecl, r *Reporter, want map[string]string) {
-	info := pkg.TypesInfo
-	tss := typeSwitches(info, fn.Decl.Body, func(ast.Expr) bool { return true })
-	if len(tss) == 0 {
-		r.Undecided("%s has no type switch", fn.Name())
+	// On the lowered function, so that a type switch and a chain of `if v, ok := val.(*T); ok` are one form: every
+	// return is classified by the dynamic type of the argument known at it (the successful type assertion that
+	// dominates it) and by whether the returned value is the argument — the asserted value, the parameter — or not.
+	sf := p.SSAFunc(fn.Obj)
+	if sf == nil || len(sf.Params) == 0 {
+		r.Undecided("%s: no SSA", fn.Name())
 		return
 	}
-	ts := tss[0]
-	var bound *ast.Ident
-	if as, ok := ts.Assign.(*ast.AssignStmt); ok {
-		bound, _ = as.Lhs[0].(*ast.Ident)
+	param := sf.Params[0]
+	// a helper that handles some of the kinds (copyBasic) is followed for the kinds of interest only through its
+	// own assertions; kinds it does not name fall through to the caller
+	type verdict struct {
+		same, fresh bool
+		pos         token.Pos
 	}
-	var subject types.Object // the value that is switched on: returning it is returning the same object
-	if e := typeSwitchSubject(ts); e != nil {
-		if id, ok := ast.Unparen(e).(*ast.Ident); ok {
-			subject = info.ObjectOf(id)
+	got := map[string]*verdict{}
+	// the tests `_, ok := param.(*T)`; behind the ok edge of one of them, up to the next such test, the kind is T
+	type kindTest struct {
+		kind string
+		val  ssa.Value // the asserted value
+		blk  *ssa.BasicBlock
+	}
+	var tests []kindTest
+	isTestBlock := map[*ssa.BasicBlock]bool{}
+	for _, b := range sf.Blocks {
+		if len(b.Instrs) == 0 {
+			continue
 		}
-	}
-	cases, _ := typeSwitchCases(info, ts)
-	for tn, cc := range cases {
-		w, ok := want[tn.Name()]
+		ifi, ok := b.Instrs[len(b.Instrs)-1].(*ssa.If)
 		if !ok {
 			continue
 		}
-		construct := fmt.Sprintf("%s#case:%s", fn.QName(), tn.Name())
-		// find return statements in the clause
-		okAll := true
-		found := false
-		why := ""
-		for _, st := range cc.Body {
-			ast.Inspect(st, func(n ast.Node) bool {
-				ret, ok := n.(*ast.ReturnStmt)
-				if !ok || len(ret.Results) == 0 {
-					return true
-				}
-				found = true
-				res := ast.Unparen(ret.Results[0])
-				id, isIdent := res.(*ast.Ident)
-				same := isIdent && ((bound != nil && id.Name == bound.Name) || (subject != nil && info.ObjectOf(id) == subject))
-				if w == "same" && !same {
-					okAll = false
-					why = fn.Name() + " must return the array/map itself (composites are shared by reference), returns " + types.ExprString(res)
-				}
-				if w == "fresh" && same {
-					okAll = false
-					why = fn.Name() + " must return a fresh copy for " + tn.Name() + ", returns its argument"
-				}
-				return true
-			})
-		}
-		if !found {
-			r.Viol(construct, p.Rel(cc.Pos()), "case has no return")
+		ex, ok := ifi.Cond.(*ssa.Extract)
+		if !ok || ex.Index != 1 {
 			continue
 		}
-		r.Check(okAll, construct, p.Rel(cc.Pos()), "returns "+w, why)
-	}
-	for name := range want {
-		present := false
-		for tn := range cases {
-			if tn.Name() == name {
-				present = true
+		ta, ok := ex.Tuple.(*ssa.TypeAssert)
+		if !ok || !ta.CommaOk || ta.X != ssa.Value(param) {
+			continue
+		}
+		t := ta.AssertedType
+		if pt, ok := t.(*types.Pointer); ok {
+			t = pt.Elem()
+		}
+		n := namedOf(t)
+		if n == nil {
+			continue
+		}
+		var val ssa.Value
+		if refs := ta.Referrers(); refs != nil {
+			for _, ref := range *refs {
+				if e0, ok := ref.(*ssa.Extract); ok && e0.Index == 0 {
+					val = e0
+				}
 			}
 		}
-		if !present {
-			r.Viol(fmt.Sprintf("%s#case:%s", fn.QName(), name), p.Rel(ts.Pos()), "no case for "+name)
+		tests = append(tests, kindTest{n.Obj().Name(), val, b})
+		isTestBlock[b] = true
+	}
+	for _, kt := range tests {
+		seen := map[*ssa.BasicBlock]bool{}
+		var walk func(b *ssa.BasicBlock)
+		walk = func(b *ssa.BasicBlock) {
+			if seen[b] || isTestBlock[b] {
+				return
+			}
+			seen[b] = true
+			if len(b.Instrs) > 0 {
+				if ret, ok := b.Instrs[len(b.Instrs)-1].(*ssa.Return); ok && len(ret.Results) > 0 {
+					v := got[kt.kind]
+					if v == nil {
+						v = &verdict{pos: instrPos(ret)}
+						got[kt.kind] = v
+					}
+					for _, rv := range resultValues(ret, 0) {
+						x := rv
+						if mi, ok := x.(*ssa.MakeInterface); ok {
+							x = mi.X
+						}
+						if (kt.val != nil && x == kt.val) || x == ssa.Value(param) || rv == ssa.Value(param) {
+							v.same = true
+						} else {
+							v.fresh = true
+						}
+					}
+				}
+			}
+			for _, sx := range b.Succs {
+				walk(sx)
+			}
 		}
+		walk(kt.blk.Succs[0])
+	}
+	if len(got) == 0 {
+		r.Undecided("%s does not distinguish the kinds of its argument by type assertions", fn.Name())
+		return
+	}
+	var names []string
+	for name := range want {
+		names = append(names, name)
+	}
+	sort.Strings(names)
+	for _, name := range names {
+		w := want[name]
+		construct := fmt.Sprintf("%s#case:%s", fn.QName(), name)
+		v := got[name]
+		if v == nil {
+			r.Viol(construct, p.Rel(fn.Decl.Pos()), "no case for "+name)
+			continue
+		}
+		why := ""
+		if w == "same" && v.fresh {
+			why = fn.Name() + " must return the array/map itself (composites are shared by reference), returns something else for " + name
+		}
+		if w == "fresh" && v.same {
+			why = fn.Name() + " must return a fresh copy for " + name + ", returns its argument"
+		}
+		r.Check(why == "", construct, p.Rel(v.pos), "returns "+w, why)
 	}
 }
 
